@@ -33,6 +33,7 @@ type RtpPlan struct {
 	Units     []RtpUnitSpec `json:"units"`
 	Seed      uint64        `json:"seed"`
 	Window    int           `json:"window"` // reorder window in packets (0: in order)
+	ListMax   int           `json:"list_max,omitempty"` // capacity of lal's reorder list (0: 1024, what the RTSP sessions use)
 	DupProb   float64       `json:"dup"`
 	Pair      string        `json:"pair"` // lal2lal | lal2ref | ref2lal
 	RefStap   bool          `json:"ref_stap,omitempty"`
@@ -48,6 +49,12 @@ func genC12Plan(r *sim.Rng, tier string) RtpPlan {
 	pl.Pair = []string{"lal2lal", "lal2ref", "ref2lal"}[r.Intn(3)]
 	pl.FirstSeq = []int{0, 1, 65535, 65534, 65500, 32767, 32768, r.Intn(65536)}[r.Intn(8)]
 	pl.Window = []int{0, 0, 1, 2, 3, 8, 16}[r.Intn(7)]
+	// the capacity is a tuning knob of the callers (1024 in RTSP sessions, 1024 / 10 in GB28181 and its tests): a small one
+	// makes bookkeeping errors of the list show within a few dozen units instead of a thousand
+	pl.ListMax = []int{0, 0, 256, 64, 40}[r.Intn(5)]
+	if pl.ListMax > 0 && pl.Window*4 >= pl.ListMax {
+		pl.ListMax = 0
+	}
 	if r.Bool(0.5) {
 		pl.DupProb = 0.05 + 0.3*r.Float()
 	}
@@ -66,6 +73,9 @@ func genC12Plan(r *sim.Rng, tier string) RtpPlan {
 	n := 3 + r.Intn(30)
 	if tier == "thorough" {
 		n = 10 + r.Intn(150)
+	}
+	if pl.ListMax > 0 {
+		n += pl.ListMax + r.Intn(pl.ListMax) // more units than the list has slots
 	}
 	ts := int64(r.Intn(100000))
 	for i := 0; i < n; i++ {
@@ -89,6 +99,10 @@ func genC12Plan(r *sim.Rng, tier string) RtpPlan {
 			}
 		default:
 			u.Size = 1 + r.Intn(1000)
+		}
+		if pl.ListMax > 0 && u.Size > pl.ListMax/4*rtpMaxPayload {
+			// a unit must fit into the list several times over, or reordering at its start overflows the list legitimately
+			u.Size = 1 + u.Size%(pl.ListMax/4*rtpMaxPayload)
 		}
 		pl.Units = append(pl.Units, u)
 	}
@@ -311,7 +325,11 @@ func execRtp(k *sim.Kernel, pl RtpPlan) {
 			}
 		}
 	} else {
-		un := rtprtcp.DefaultRtpUnpackerFactory(pt, pl.Clock, 1024, func(pkt base.AvPacket) {
+		listMax := 1024
+		if pl.ListMax > 0 {
+			listMax = pl.ListMax
+		}
+		un := rtprtcp.DefaultRtpUnpackerFactory(pt, pl.Clock, listMax, func(pkt base.AvPacket) {
 			pl := append([]byte(nil), pkt.Payload...)
 			if video {
 				// AVCC: 4-byte length prefixed NAL units
